@@ -921,7 +921,7 @@ def run(ctx):
     t_start = time.time()
     ctx.proofs()
     lib = common.repobuild("asan")
-    ok, log = common.ocaml_build()
+    ok, log = common.ocaml_build("gc")
     if not ok and runner_is_current():
         # bin/build-ocaml stops at the first engine that fails; ours was built before that
         ctx.notes["ocaml_build_failed_in_another_engine"] = log[-300:]
@@ -942,6 +942,15 @@ def run(ctx):
     except OSError as e:
         ctx.correspondence_broken("c09-binaries-unavailable", str(e))
         return
+    # VM level: a bounded-live loop must run in a heap independent of its iteration count
+    try:
+        from checks.parts import boundedlive
+        from lib import nevrun as _nevrun
+        boundedlive.run_boundedlive(ctx, _nevrun.build("asan"))
+    except common.BuildError:
+        raise
+    except Exception as ex:
+        ctx.correspondence_broken("boundedlive-crashed", repr(ex)[:400])
     ctx.coverage["exhaustive"] = False
     ctx.coverage["rule"] = (
         "operation histories generated by driving the extracted Coq model (every emitted op is accepted by "
